@@ -97,6 +97,14 @@ Theorem C10_mix_mutual_exclusion : forall n progs sched t u l,
   let '(s, ts) := xrun sched (xinit n progs) in holds (xat (ts t)) l = true -> holds (xat (ts u)) l = true -> t = u.
 Proof. exact mix_mutual_exclusion. Qed.
 Print Assumptions C10_mix_mutual_exclusion.
+(* what a thread has put into the deque of sub-port i so far, followed by what it has yet to put there, is what its program sends to that
+   sub-port - directly or through the MultiPort - in program order; with C10_mix_exactly_once (every deque is first-in first-out) each
+   sender's messages leave every deque in the order sent *)
+Theorem C10_mix_sender_order : forall n progs sched t i,
+  let '(s, ts) := xrun sched (xinit n progs) in
+  xsends n i (progs t) = mine_of t (xapp s (S i)) ++ xpending n i (ts t).
+Proof. exact mix_sender_order_n. Qed.
+Print Assumptions C10_mix_sender_order.
 (* the hypotheses are met by real runs: three threads, two sub-ports, every kind of use at once *)
 Example C10_mix_nontrivial :
   let progs := fun t => match t with
